@@ -401,6 +401,29 @@ def replay_rdf(inputs):
     return {'reproduced': bool(bad), 'detail': f'seed={seed} labels={labels}: ' + '; '.join(bad[:4])}
 
 
+def replay_rdf_exact(inputs):
+    """Distances exactly on bin edges and exactly at the cut-off (dyadic coordinates in an 8 A cubic cell: exact in binary floating point):
+    the histogram uses half-open bins [k dr, (k+1) dr) with the last one closed, so a pair exactly at max_dist is counted in the last shell."""
+    import numpy as np
+    from pymatgen.core import Element
+    from gemdat.rdf import radial_distribution_between_species
+    from gemdat.trajectory import Trajectory
+    md, res = float(inputs.get('max_dist', 2.0)), float(inputs.get('resolution', 0.5))
+    # Li at the origin; O at distances 0.5, 1.0, 2.0 (exactly the cut-off), 2.5 (beyond) along the axes, one frame repeated twice
+    frame = np.array([[0.0, 0.0, 0.0], [0.0625, 0.0, 0.0], [0.0, 0.125, 0.0], [0.0, 0.0, 0.25], [0.3125, 0.0, 0.0]])
+    traj = Trajectory(species=[Element('Li')] + [Element('O')] * 4, coords=np.stack([frame, frame]), lattice=np.eye(3) * 8.0, time_step=1e-15)
+    r = radial_distribution_between_species(trajectory=traj, specie_1='Li', specie_2='O', max_dist=md, resolution=res)
+    d = np.array([0.5, 1.0, 2.0, 2.5] * 2)
+    edges = np.arange(0, md + res, res)
+    hist = np.array([((d >= edges[k]) & ((d < edges[k + 1]) if k < len(edges) - 2 else (d <= edges[k + 1]))).sum() for k in range(len(edges) - 1)])
+    rho = 4 / 8.0 ** 3
+    exp = hist / (rho * 4 / 3 * np.pi * ((edges[:-1] + res) ** 3 - edges[:-1] ** 3))
+    bad = []
+    if len(r.y) != len(exp) or not np.allclose(r.y, exp, rtol=1e-12, atol=0):
+        bad.append(f'pairs at distances {sorted(set(d.tolist()))} with cut-off {md}, shell width {res}: y = {np.asarray(r.y).tolist()}, brute force {exp.tolist()}')
+    return {'reproduced': bool(bad), 'detail': '; '.join(bad) or 'ok'}
+
+
 def bounded_rdf(tier, seed):
     import itertools
     import numpy as np
@@ -416,6 +439,13 @@ def bounded_rdf(tier, seed):
         st.case(inp, nontrivial=len(set(labs)) > 1)
         if r['reproduced']:
             st.violation('uniqify', r['detail'], 'verif.props.c11:replay_uniqify', inp)
+    for md_, res_ in ((2.0, 0.5), (2.0, 1.0), (1.0, 0.5), (2.5, 0.5)):
+        inp = {'max_dist': md_, 'resolution': res_}
+        r = st.guard(replay_rdf_exact, inp)
+        if r is not None:
+            st.case(inp, nontrivial=True)
+            if r['reproduced']:
+                st.violation('rdf-exact-edges', r['detail'], 'verif.props.c11:replay_rdf_exact', inp)
     for c in range(n):
         inp = {'seed': int(rng.integers(1, 10 ** 6)), 'max_dist': float(rng.choice([2.0, 3.0, 4.5])), 'resolution': float(rng.choice([0.25, 0.5, 1.0]))}
         r = st.guard(replay_rdf, inp)
